@@ -81,15 +81,28 @@ impl BisyncEngine {
     ) -> Result<BisyncResult> {
         let start = std::time::Instant::now();
 
-        // 1. Open state database
-        let mut state_db = BisyncStateDb::open(source, dest)?;
+        // 1. Open state database (a dry run must not create, clear or modify it)
+        let mut state_db = if opts.dry_run {
+            None
+        } else {
+            Some(BisyncStateDb::open(source, dest)?)
+        };
 
         if opts.clear_state {
-            state_db.clear_all()?;
+            if let Some(ref mut db) = state_db {
+                db.clear_all()?;
+            }
         }
 
         // 2. Load prior state
-        let prior_state = state_db.load_all()?;
+        let prior_state = match state_db {
+            Some(ref db) => db.load_all()?,
+            None if opts.clear_state => std::collections::HashMap::new(),
+            None => match BisyncStateDb::open_existing_read_only(source, dest)? {
+                Some(db) => db.load_all()?,
+                None => std::collections::HashMap::new(),
+            },
+        };
 
         // 3. Scan both sides
         let source_scanner = Scanner::new(source);
@@ -120,7 +133,9 @@ impl BisyncEngine {
             let (stats, errors) = execute_actions(source, dest, &resolved)?;
 
             // 9. Update state database
-            update_state(&mut state_db, &resolved)?;
+            if let Some(ref mut db) = state_db {
+                update_state(db, &resolved)?;
+            }
 
             (stats, errors)
         };
